@@ -20,6 +20,15 @@ def _h(rng, p=0.4):
     return {'seed': rng.randrange(10**6), 'ni': rng.randint(3, 4), 'ng': rng.randint(3, 6)} if rng.random() < p else None
 
 
+def design(tier, seed):
+    from .. import tlc
+
+    r = tlc.run_model('ArithLemmas', 'ArithLemmas.cfg', workers=8, tag='C09-lemma', xmx='4g')
+    tlc.cleanup(r['workdir'])
+    return {'states': r['distinct'], 'transitions': r['generated'],
+            'runs': [f'ArithLemmas (bit-sequence add/shift/mul/compare/sqrt = integer arithmetic, all a,b < 32): {r["distinct"]} states, {r["wall_s"]:.1f}s']}
+
+
 def sources(tier, seed, ctx):
     rng = random.Random(seed + 9)
     srcs = []
